@@ -12,7 +12,7 @@ EXPLANATION = (
     '(and the tabled safe derivations parent / suffix push / tmp_of), everything else derives from the served root only; (R2) safe_join returns '
     'Some only on the false edge of is_absolute() and after the component loop is exhausted, and the ParentDir, RootDir and Prefix components each lead '
     'to None; the joined value is root.join(rel); an fs mutator applied to the ancestors of a request path (pruning emptied directories) must be limited by the number of Path components - a limit computed from the text of the path (`/` count) climbs past the root for `a//////f`; (R3) a refused Put drains exactly take(len) before the error reply, refused Get/Delete reply without '
-    'consuming, and all three return the reply result to the loop; (R4) no fs call is reachable on the refusal edge.')
+    'consuming, and all three return the reply result to the loop; (R4) no fs call is reachable on the refusal edge. R2 in the form `refusal(rel).is_none()` is not decided. R3 also: an Error reply that carries a client-supplied string with no cut to a fixed length on the way is reported (the reply can exceed MAX_FRAME and end the session instead of refusing the request).')
 ASSUMPTIONS = ['Path::components / is_absolute classify components as documented', 'no symlinks leading outside the served tree (property quantifier)']
 
 HANDLERS = ['serve::handle_get', 'serve::handle_put', 'serve::handle_delete']
